@@ -344,6 +344,20 @@ pub fn run(prop: &str, seed: u64, tier_thorough: bool, trace_path: Option<&str>,
                                 }
                                 None => vs.push("the emitted .xz file does not have the field layout of a single-block stream".into()),
                             }
+                            // a sink that accepts only part of each write must receive the same file (the encoder
+                            // measures its own output for the index and footer)
+                            if fi == 0 && n <= 70000 {
+                                for short in [1usize, 3, 4096] {
+                                    let mut sink = crate::io::FaultSink { short, ..Default::default() };
+                                    let mut src2 = &input[..];
+                                    let r2 = catch(|| lzma_rs::xz_compress(&mut src2, &mut sink));
+                                    if !matches!(r2, Caught::Done(Ok(()))) || sink.data != out {
+                                        let d2 = api::xz_bytes(&sink.data);
+                                        vs.push(format!("into a sink accepting {} byte(s) per write the emitted file differs from the one written into a Vec ({} vs {} bytes); decoding it back: {:?} {}", short, sink.data.len(), out.len(), d2.verdict, d2.msg));
+                                        break;
+                                    }
+                                }
+                            }
                             if have_xz && cli_budget > 0 && n <= 200000 {
                                 cli_budget -= 1;
                                 match xz_cli_decode(&out, "xz") {
